@@ -64,6 +64,7 @@ type GroupRec struct {
 	EffMin    int
 	EffMax    int
 	Dry       bool
+	CachedSize v1.ResourceList // "last observed node size" the controller holds when this scan decides (nil: none)
 	PrevIncreaseFailed bool // the previous scan's cloud scale-up of this group failed (no lock may result)
 	Locked    bool      // lock model says locked when processing started
 	LockT0    time.Time // valid when Locked
@@ -304,6 +305,17 @@ func (w *World) analyse(rec *ScanRecord) {
 	}
 	for _, gr := range rec.Groups {
 		w.derive(rec, gr)
+		// escalator remembers the allocatable of the first listed node of every scan that lists
+		// nodes (before any guard); scans that list none keep the earlier value
+		if gr.Processed && !gr.ListFault {
+			if len(gr.GV.Nodes) > 0 {
+				if w.LastSize == nil {
+					w.LastSize = map[int]v1.ResourceList{}
+				}
+				w.LastSize[gr.G] = gr.GV.Nodes[0].Status.Allocatable.DeepCopy()
+			}
+			gr.CachedSize = w.LastSize[gr.G]
+		}
 		if at, ok := w.FailedIncrease[gr.G]; ok && at == rec.Index-1 {
 			gr.PrevIncreaseFailed = true
 		}
